@@ -9,6 +9,10 @@
 //!   ["s", k]   snapshot_info() -> (k=1: serde_json round trip of TimerInfo/InterruptInfo) ->
 //!              apply_snapshot_info() on a *fresh* TimerContext built with unrelated defaults
 //!   ["w", v]   MemoryImage::write_internal_byte(0xFC, v)   (firmware acknowledging/clearing ISR bits)
+//!   ["g", c]   no call at all: the cycle counter moves on to absolute cycle c while the timers are *not* ticked
+//!              (what CoreRuntime::step does while `in_interrupt`); only `last` changes, which is what a later
+//!              ["s"] hands to apply_snapshot_info as the restored cycle counter
+//!   ["R"]      TimerContext::reset(0): power-on style reset, the clock restarts at cycle 0
 //! "machine" verb: the same timer inside `CoreRuntime::step` (NOP / WAIT / HALT programs), see run_machine().
 //! Observation per tick: [fired_mti | fired_sti<<1, next_mti, next_sti, ISR byte after the tick];
 //! per reset/snapshot: [next_mti, next_sti]; per write: [ISR].
@@ -109,33 +113,87 @@ fn run_case(case: &Value) -> Value {
                 mem.write_internal_byte(ISR, arg as u8);
                 obs.push(json!([mem.read_internal_byte(ISR).unwrap_or(0)]));
             }
+            "g" => {
+                last = arg;
+                obs.push(json!([ctx.next_mti, ctx.next_sti]));
+            }
+            "R" => {
+                ctx.reset(0);
+                last = 0;
+                let isr = mem.read_internal_byte(ISR).unwrap_or(0);
+                obs.push(json!([ctx.next_mti, ctx.next_sti, 0, isr]));
+            }
             _ => return json!({"error": format!("unknown op {verb}")}),
         }
     }
     json!({"obs": obs, "enabled": ctx.enabled, "mti": ctx.mti_period, "sti": ctx.sti_period})
 }
 
-/// Machine level: a `CoreRuntime` with a program in RAM, IMR = 0 (nothing is ever delivered), the runtime's
-/// timer replaced by `TimerContext::new(enabled, mti, sti)` (as async_runtime.rs does), stepped one instruction
-/// at a time.  Per step the harness may first clear ISR bits (firmware acknowledging) or push the runtime through
-/// `save_snapshot` -> fresh `CoreRuntime` -> `load_snapshot`.  Observation after each step:
-/// [cycle_count, ISR, next_mti, next_sti, halted, pc].
+/// Machine level: a `CoreRuntime` with a program in RAM (or, with "rom", a ROM image holding main program,
+/// interrupt handler and the two vectors), IMR as given (0 = nothing is ever delivered), the runtime's timer
+/// replaced by `TimerContext::new(enabled, mti, sti)` (as async_runtime.rs does), stepped one instruction at a
+/// time.  Per step the harness may first clear ISR bits (firmware acknowledging), push the runtime through
+/// `save_snapshot` -> fresh `CoreRuntime` -> `load_snapshot` (action 1), or reset the machine the way the PyO3
+/// wrapper's power_on_reset does (`power_on_reset()` + `timer.reset_full(cycle_count)`, action 2).
+/// Observation after each step:
+/// [cycle_count, ISR, next_mti, next_sti, halted, pc, in_interrupt, irq_total, in_interrupt before the step].
+fn look(rt: &CoreRuntime) -> Vec<Value> {
+    let isr = rt.memory.read_internal_byte(ISR).unwrap_or(0);
+    vec![
+        json!(rt.cycle_count()),
+        json!(isr),
+        json!(rt.timer.next_mti),
+        json!(rt.timer.next_sti),
+        json!(rt.state.is_halted()),
+        json!(rt.state.pc()),
+        json!(rt.timer.in_interrupt),
+        json!(rt.timer.irq_total),
+    ]
+}
+
+fn rom_image(case: &Value) -> Option<(usize, Vec<u8>)> {
+    let rom = case.get("rom")?;
+    let base = get_u64(rom, "base", 0xC0000) as usize;
+    let size = get_u64(rom, "size", 0x40000) as usize;
+    let mut img = vec![0u8; size];
+    if let Some(segs) = rom.get("segs").and_then(|v| v.as_array()) {
+        for seg in segs {
+            let addr = seg.get(0).and_then(|v| v.as_u64()).unwrap_or(0) as usize;
+            if let Some(bytes) = seg.get(1).and_then(|v| v.as_array()) {
+                for (i, b) in bytes.iter().enumerate() {
+                    let a = addr + i;
+                    if a >= base && a < base + size {
+                        img[a - base] = b.as_u64().unwrap_or(0) as u8;
+                    }
+                }
+            }
+        }
+    }
+    Some((base, img))
+}
+
 fn run_machine(case: &Value) -> Value {
     let enabled = get_bool(case, "enabled", true);
     let mti = get_u64(case, "mti", 0).min(i32::MAX as u64) as i32;
     let sti = get_u64(case, "sti", 0).min(i32::MAX as u64) as i32;
     let base = get_u64(case, "base", 0xB8100) as u32;
+    let imr = get_u64(case, "imr", 0) as u8;
+    let stack = get_u64(case, "stack", 0xBFF00) as u32;
     let prog: Vec<u8> = case
         .get("prog")
         .and_then(|v| v.as_array())
         .map(|a| a.iter().map(|x| x.as_u64().unwrap_or(0) as u8).collect())
         .unwrap_or_default();
     let snap_path = case.get("snap_path").and_then(|v| v.as_str()).unwrap_or("");
+    let rom = rom_image(case);
     let mut rt = CoreRuntime::new();
-    rt.load_rom(&prog, base as usize);
+    match rom.as_ref() {
+        Some((rbase, img)) => rt.load_rom(img, *rbase),
+        None => rt.load_rom(&prog, base as usize),
+    }
     rt.state.set_pc(base);
-    rt.set_reg("S", 0xBFF00);
-    rt.memory.write_internal_byte(0xFB, 0);
+    rt.set_reg("S", stack);
+    rt.memory.write_internal_byte(0xFB, imr);
     rt.memory.write_internal_byte(ISR, 0);
     *rt.timer = TimerContext::new(enabled, mti, sti);
     if let Some(b) = case.get("timer_base").and_then(|v| v.as_u64()) {
@@ -145,33 +203,46 @@ fn run_machine(case: &Value) -> Value {
     let empty = Vec::new();
     let steps = case.get("steps").and_then(|v| v.as_array()).unwrap_or(&empty);
     for st in steps {
-        // st = [clear_mask, snapshot(0/1)]
+        // st = [clear_mask, action]   action: 0 none, 1 snapshot round trip, 2 machine reset
         let clear = st.get(0).and_then(|v| v.as_u64()).unwrap_or(0) as u8;
-        let snap = st.get(1).and_then(|v| v.as_u64()).unwrap_or(0) != 0;
+        let action = st.get(1).and_then(|v| v.as_u64()).unwrap_or(0);
         if clear != 0 {
             let cur = rt.memory.read_internal_byte(ISR).unwrap_or(0);
             rt.memory.write_internal_byte(ISR, cur & !clear);
         }
-        if snap {
+        if action == 1 {
             let path = std::path::Path::new(snap_path);
             if let Err(e) = rt.save_snapshot(path) {
                 return json!({"error": format!("save_snapshot: {e}"), "obs": obs});
             }
             let mut fresh = CoreRuntime::new();
+            if let Some((rbase, img)) = rom.as_ref() {
+                fresh.load_rom(img, *rbase);
+            }
             if let Err(e) = fresh.load_snapshot(path) {
                 return json!({"error": format!("load_snapshot: {e}"), "obs": obs});
             }
             rt = fresh;
-            let isr = rt.memory.read_internal_byte(ISR).unwrap_or(0);
-            obs.push(json!({"restored": [rt.cycle_count(), isr, rt.timer.next_mti, rt.timer.next_sti,
-                                          rt.state.is_halted(), rt.state.pc()]}));
+            obs.push(json!({"restored": look(&rt)}));
+        } else if action == 2 {
+            rt.power_on_reset();
+            let now = rt.cycle_count();
+            rt.timer.reset_full(now);
+            if rom.is_none() {
+                rt.state.set_pc(base);
+            }
+            rt.set_reg("S", stack);
+            rt.memory.write_internal_byte(0xFB, imr);
+            rt.memory.write_internal_byte(ISR, 0);
+            obs.push(json!({"reset": look(&rt)}));
         }
+        let in_before = rt.timer.in_interrupt;
         if let Err(e) = rt.step(1) {
             return json!({"error": format!("step: {e}"), "obs": obs});
         }
-        let isr = rt.memory.read_internal_byte(ISR).unwrap_or(0);
-        obs.push(json!([rt.cycle_count(), isr, rt.timer.next_mti, rt.timer.next_sti,
-                        rt.state.is_halted(), rt.state.pc()]));
+        let mut o = look(&rt);
+        o.push(json!(in_before));
+        obs.push(Value::Array(o));
     }
     json!({"obs": obs})
 }
